@@ -184,6 +184,11 @@ struct ReplayFile {
     violation: Violation,
     count_in_class: u64,
     how_to_replay: String,
+    /// cases the same worker process had run before this one. Empty for an execution that reproduces on its own; filled in
+    /// when it only reproduces after those cases ran in the same process (state that outlives a query: a process-wide
+    /// cache, a lazily built global) - the replay then runs them first, in order
+    #[serde(default)]
+    history: Vec<usize>,
 }
 
 fn replay(path: &str, json: bool) -> i32 {
@@ -203,6 +208,13 @@ fn replay(path: &str, json: bool) -> i32 {
         }
     };
     let p = find_prop(&rf.property);
+    for h in &rf.history {
+        let mut hc = Ctx::new(p.id(), rf.tier, seed());
+        hc.case = *h;
+        hc.case_label = p.case_label(rf.tier, *h);
+        crumb::mark(*h, &[]);
+        p.run_case(rf.tier, *h, &mut hc);
+    }
     let mut ctx = Ctx::new(p.id(), rf.tier, seed());
     ctx.case = rf.violation.case;
     ctx.case_label = p.case_label(rf.tier, rf.violation.case);
@@ -519,6 +531,7 @@ fn driver(p: &'static dyn Prop, tier: Tier) -> i32 {
             violation: v.clone(),
             count_in_class: count,
             how_to_replay: format!("/verif/bin/check replay {file}"),
+            history: vec![],
         };
         std::fs::write(&file, serde_json::to_string_pretty(&rf).unwrap()).unwrap();
         let k = known
@@ -535,8 +548,7 @@ fn driver(p: &'static dyn Prop, tier: Tier) -> i32 {
         // confirm determinism before reporting (not for process deaths, which
         // were observed in a subprocess already)
         if !class.starts_with("process-death") {
-            let mut outs = Vec::new();
-            for _ in 0 .. 2 {
+            let run_replay = |machinery: &mut Vec<String>| -> Option<(Option<i32>, String)> {
                 let o = Command::new(&exe)
                     .arg("replay")
                     .arg(&file)
@@ -569,12 +581,52 @@ fn driver(p: &'static dyn Prop, tier: Tier) -> i32 {
                             t.dedup();
                             t.join(" ")
                         };
-                        let mut obs: Vec<(String, String)> = vs.into_iter().map(|v| (v.class, tokens(&v.observed))).collect();
+                        let mut obs: Vec<(String, String)> = vs.into_iter().filter(|x| x.class == *class).map(|v| (v.class, tokens(&v.observed))).collect();
                         obs.sort();
-                        outs.push((o.status.code(), format!("{obs:?}")))
+                        Some((o.status.code(), format!("{obs:?}")))
                     }
-                    Err(e) => machinery.push(format!("replay spawn failed: {e}")),
+                    Err(e) => {
+                        machinery.push(format!("replay spawn failed: {e}"));
+                        None
+                    }
                 }
+            };
+            let mut outs = Vec::new();
+            for _ in 0 .. 2 {
+                if let Some(o) = run_replay(&mut machinery) {
+                    outs.push(o);
+                }
+            }
+            // the execution does not fail on its own in a fresh process, identically twice: does it fail, identically twice,
+            // after the cases its worker had run before it? Then the verdict depends on state that outlives a query, and
+            // the history is part of the replayable artefact
+            let mut history_dependent = false;
+            if outs.len() == 2 && outs[0] == outs[1] && outs[0].0 == Some(0) {
+                let shard = v.case % nshards;
+                let history: Vec<usize> = (shard .. v.case).step_by(nshards).collect();
+                if !history.is_empty() {
+                    let rfh = ReplayFile {
+                        property: id.to_string(),
+                        tier,
+                        violation: v.clone(),
+                        count_in_class: count,
+                        how_to_replay: format!("/verif/bin/check replay {file}   (runs the {} earlier cases of the same worker first)", history.len()),
+                        history,
+                    };
+                    std::fs::write(&file, serde_json::to_string_pretty(&rfh).unwrap()).unwrap();
+                    outs.clear();
+                    for _ in 0 .. 2 {
+                        if let Some(o) = run_replay(&mut machinery) {
+                            outs.push(o);
+                        }
+                    }
+                    history_dependent = outs.len() == 2 && outs[0] == outs[1] && outs[0].0 == Some(1);
+                }
+            }
+            if history_dependent {
+                lines.push(format!(
+                    "  note: class {class} fails only after earlier cases ran in the same process (state outlives a query); the replay file lists them"
+                ));
             }
             if outs.len() == 2 && (outs[0] != outs[1] || outs[0].0 != Some(1)) {
                 machinery.push(format!(
